@@ -252,8 +252,8 @@ fn main() {
     // hang watchdog: a shard that neither takes a case nor emits an answer for HARNESS_HANG_SECS seconds
     // is reported (suite, shard, case index, last request written) and the process exits with code 4
     let hang_secs: u64 = std::env::var("HARNESS_HANG_SECS").ok().and_then(|s| s.parse().ok()).unwrap_or(match tier {
-        Tier::Quick => 120,
-        Tier::Thorough => 600,
+        Tier::Quick => 240,
+        Tier::Thorough => 900,
     });
     {
         let (suite, out) = (suite.clone(), out.clone());
